@@ -2,7 +2,7 @@
    [dinfer] is the C06 inference model over the digit tables regenerated from /repo; [natsort_less] the natsort model:
    these are the instances C09/Harness.v runs on the implementation's output. *)
 From Miller Require Import Base.Record C06.Model C06.Harness C11.Model C11.Proofs C09.Model C09.Proofs C09.FloatMono C09.Harness.
-From Miller Require Import C09.Natural C09.StableSort C09.VerbAny C09.WithinModel C09.Within.
+From Miller Require Import C09.Natural C09.StableSort C09.VerbAny C09.WithinModel C09.Within C09.DslFlags.
 From Coq Require Import Permutation.
 Open Scope Z_scope.
 
@@ -239,6 +239,25 @@ Theorem C09_sort_within_records_top_level : forall natural r,
   /\ Permutation (swr_model natsort_less true natural None r) (map (fun e => (fst e, jsort (if natural then natsort_less else lex_lt) (snd e))) r).
 Proof. exact (swr_model_top_level natsort_less). Qed.
 Print Assumptions C09_sort_within_records_top_level.
+
+(* the flag string of the DSL functions sort(collection, "flags") (decodeSortFlags, modelled in C09/DslFlags.v): scanned left to
+   right; the LAST of n f c t selects the sort type (default numerical), r anywhere reverses, v anywhere selects map values,
+   every other character is ignored *)
+Theorem C09_dsl_flags_last_type_letter_wins : forall s1 c s2,
+  is_type_char c = true -> forallb (fun c => negb (is_type_char c)) s2 = true ->
+  fst (fst (decode_sort_flags (s1 ++ c :: s2))) = type_of_char c.
+Proof. exact decode_last_type_wins. Qed.
+Print Assumptions C09_dsl_flags_last_type_letter_wins.
+Theorem C09_dsl_flags_reverse_and_by_value : forall s,
+  snd (fst (decode_sort_flags s)) = existsb (fun c => Ascii.eqb c "r") s /\ snd (decode_sort_flags s) = existsb (fun c => Ascii.eqb c "v") s.
+Proof. exact (fun s => conj (decode_from_rev s TNum false false) (decode_from_byv s TNum false false)). Qed.
+Print Assumptions C09_dsl_flags_reverse_and_by_value.
+(* the flag strings the correspondence uses (DSL_FLAGS in c09.py) and the comparators it checks their outputs with *)
+Example C09_dsl_flag_table :
+  map dsl_flag_of [B "f"; B "fr"; B "c"; B "cr"; B ""; B "n"; B "nr"; B "t"; B "tr"; B "rc"; B "rt"; B "fv"; B "xnqc"]
+  = [(Ff, false); (Fr, false); (Dc, false); (Dcr, false); (Fnf, false); (Fnf, false); (Fnr, false); (Dt, false); (Dtr, false);
+     (Dcr, false); (Dtr, false); (Ff, true); (Dc, false)].
+Proof. vm_compute. reflexivity. Qed.
 
 (* ---- non-vacuity *)
 Definition ex_in : list record :=
